@@ -71,7 +71,14 @@ SingleStep(e) ==
        \* the next continue
        [m |-> e.snap, snap |-> NoSnap, done |-> TRUE, log |-> e.log]
   ELSE
-  LET m1 == IF e.m.st = "run" THEN S!StepM(e.m) ELSE e.m
+  LET m1 == IF e.m.st = "run" THEN S!StepM(e.m) ELSE e.m IN
+  IF m1.err # "" /\ e.m.err = ""
+  THEN \* a runtime error leaves the loop at once; an error met while looking ahead is taken back with the look-ahead
+       \* (the continue that really executes the statement will meet it again)
+       [m |-> IF e.snap # NoSnap THEN e.snap ELSE m1, snap |-> NoSnap, done |-> TRUE,
+        log |-> e.log \o SubSeq(m1.calls, Len(e.m.calls) + 1, Len(m1.calls))]
+  ELSE
+  LET
       \* the host has received whatever calls this step made - also when the step is rewound afterwards
       log == e.log \o SubSeq(m1.calls, Len(e.m.calls) + 1, Len(m1.calls))
       \* out of content: follow an invisible default choice if that is all there is, else the flow has stopped
@@ -88,6 +95,9 @@ SingleStep(e) ==
        THEN IF CanContinue(r1.m) THEN [r1 EXCEPT !.snap = IF r1.snap = NoSnap THEN r1.m ELSE r1.snap]
             ELSE [r1 EXCEPT !.snap = NoSnap]             \* nothing can follow: the look-ahead state is the state
        ELSE r1
+
+\* the flow has run out of content with nothing on offer and without END / DONE: an error, raised when the loop is left
+OutOfContent(m) == IF m.st = "out" /\ m.err = "" THEN [m EXCEPT !.err = "out", !.th = S!Fresh, !.ch = <<>>, !.last = <<>>] ELSE m
 
 \* the loop is left: a snapshot still pending means the look-ahead went further than the line
 EndCont(e) == IF e.snap # NoSnap THEN [m |-> e.snap, snap |-> NoSnap, log |-> e.log] ELSE [m |-> e.m, snap |-> NoSnap, log |-> e.log]
